@@ -427,6 +427,7 @@ func (ex *Exec) visitInstr(fr *frame, instr ssa.Instruction) cont {
 	case *ssa.Range:
 		fr.env[instr] = ex.rangeIter(fr, fr.get(instr.X), instr)
 	case *ssa.Next:
+		ex.curFrame = fr
 		fr.env[instr] = fr.get(instr.Iter).(*iter).next(ex)
 	case *ssa.FieldAddr:
 		p := fr.get(instr.X).(*Value)
@@ -781,12 +782,13 @@ func (ex *Exec) lookup(fr *frame, instr *ssa.Lookup) Value {
 // ---- iteration ----
 
 type iter struct {
-	kind string
-	m    *Map
-	i    int
-	s    string
+	kind       string
+	m          *Map
+	i          int
+	s          string
+	sym        SymStr
 	keyT, valT types.Type
-	snapshot []*mapEntry
+	snapshot   []*mapEntry
 }
 
 func (ex *Exec) rangeIter(fr *frame, x Value, instr *ssa.Range) Value {
@@ -803,7 +805,7 @@ func (ex *Exec) rangeIter(fr *frame, x Value, instr *ssa.Range) Value {
 	case string:
 		return &iter{kind: "string", s: v}
 	case SymStr:
-		ex.unsupported("range over symbolic string")
+		return &iter{kind: "symstr", sym: v}
 	}
 	panic(fmt.Sprintf("range over %T", x))
 }
@@ -820,6 +822,22 @@ func (it *iter) next(ex *Exec) Value {
 			return Tuple{ex.tt.Bool(true), copyVal(e.key), load(e.val)}
 		}
 		return Tuple{ex.tt.Bool(false), ex.zero(it.keyT), ex.zero(it.valT)}
+	case "symstr":
+		// a string with symbolic bytes: each step decodes one rune with the real
+		// unicode/utf8.DecodeRuneInString (forking on the byte classes)
+		if it.i >= len(it.sym) {
+			return Tuple{ex.tt.Bool(false), ex.tt.BV(64, 0), ex.tt.BV(32, 0)}
+		}
+		pkg := ex.eng.prog.ImportedPackage("unicode/utf8")
+		if pkg == nil || pkg.Func("DecodeRuneInString") == nil || ex.curFrame == nil {
+			ex.unsupported("range over symbolic string (unicode/utf8 not loaded)")
+		}
+		rest := append(SymStr{}, it.sym[it.i:]...)
+		r := ex.callFunction(ex.curFrame, pkg.Func("DecodeRuneInString"), []Value{rest}, nil, 0).(Tuple)
+		size := ex.concInt(r[1], "rune size")
+		idx := it.i
+		it.i += size
+		return Tuple{ex.tt.Bool(true), ex.tt.BV(64, uint64(idx)), r[0]}
 	case "string":
 		if it.i >= len(it.s) {
 			return Tuple{ex.tt.Bool(false), ex.tt.BV(64, 0), ex.tt.BV(32, 0)}
